@@ -77,6 +77,11 @@ CHECKS = {
         technique="runtime monitor: `units for` replies compared as sets with the registry dump, `factorize` replies multiplied out with an independent dimension algebra, three spellings of every dimensionality compared with each other",
         text="Exhaustive over every named quantity and every dimensionality occurring in the database, each written as quantity name, as a unit and as a base-unit product, plus random base-unit products: no unit of another dimensionality, no missing non-alias unit, no duplicates, own categories, factorizations that multiply out to X without duplicates, identical answers for all spellings.",
         note="A factorize request exceeding its watchdog twice is inconclusive here; the alias notion (definition is a bare name) is the registry's."),
+    "C15": dict(
+        category="exploration", design_ref="DESIGN.md §2 C15",
+        technique="runtime history monitor: long-lived contexts vs fresh-context replay under a sequential model of `ans`; registry/settings hashed before and after histories",
+        text="Seeded histories of 5-60 queries of every kind (plain, time results, conversions, definitions, commands, substances, dates, failing queries of each error family, ans/ANS/_) on long-lived bundled and currency contexts with the feature on and off: every reply must equal the fresh-context reply for the model's previous answer, `ans` must follow the model, and the database, settings and load-time temporaries must be unchanged after each history.",
+        note="`now`-dependent queries are exempt from reply comparison; after a time result either ans behaviour is accepted; histories are sampled, not enumerated."),
 }
 
 PENDING = {}
